@@ -438,7 +438,8 @@ CHECKS["C16"] = {
             "after the graph stopped; no deadlock / livelock; the loop never sleeps to a forced slice expiry with an accepted value pending (lost "
             "wake-up); without stop or end-time expiry every accepted value is delivered (conflating: the latest). A failing schedule is replayed "
             "from its recorded choice list and must fail identically. non-trivial = a schedule whose observable history differs from the default one.",
-    "bounds": {"quick": "preemption bound 2 (bound 1 for 4-send scripts); timers fire only when chosen", "thorough": "preemption bound 3"},
+    "bounds": {"quick": "deviation bound 2 for scripts with <= 2 sends (or 3 sends without stopper), else 1; a deviation = preemption of a runnable thread (also at the hooked stop-flag accesses), a timer firing while a thread could run, or a spurious wake-up",
+               "thorough": "deviation bound 3 for the small scripts, 2 for the others"},
     "min_counters": {"quick": {"nontrivial": 200, "sched.executions": 20000}},
     "assumptions": COMMON_ASSUMPTIONS + [
         "Sequentially consistent interleavings at synchronisation operations only: data races between unsynchronised accesses and weak-memory "
